@@ -356,6 +356,10 @@ class Conic(Quadric):
         a1, a2 = unit(Line(a, c).meet(tangent)), unit(Line(b, d).meet(tangent))
         b1, b2 = unit(Line(a, b).meet(tangent)), unit(Line(c, d).meet(tangent))
 
+        if np.allclose(a1, a2, rtol=EQ_TOL_REL, atol=EQ_TOL_ABS):
+            # the tangent passes through the intersection of ac and bd, the construction needs the other pairing of the points
+            return cls.from_tangent(tangent, a, c, b, d)
+
         o = tangent.general_point.array
 
         a2b1 = det([o, a2, b1])
